@@ -137,11 +137,15 @@ class _Env:
         import numpy as np
 
         op = self.op
+        n = int(getattr(self, "asym_len", 2))  # one shape per history: what one history leaves behind cannot colour the next
+
+        def c(vals, dt):
+            return op.const(np.resize(np.array(vals, dt), n))
+
         cands = [
-            ("max_i16", lambda: op.max([op.const(np.array([1, 5], np.int16)), op.const(np.array([3, 2], np.int16))])),
-            ("min_u16", lambda: op.min([op.const(np.array([1, 5], np.uint16)), op.const(np.array([3, 2], np.uint16))])),
-            ("max_u16", lambda: op.max([op.const(np.array([[7]], np.uint16)), op.const(np.array([[9]], np.uint16))])),
-            ("add_i16", lambda: op.add(op.const(np.array([1, 5], np.int16)), op.const(np.array([3, 2], np.int16)))),
+            ("max_i16", lambda: op.max([c([1, 5], np.int16), c([3, 2], np.int16)])),
+            ("min_u16", lambda: op.min([c([1, 5], np.uint16), c([3, 2], np.uint16)])),
+            ("add_i16", lambda: op.add(c([1, 5], np.int16), c([3, 2], np.int16))),
         ]
         out = []
         with warnings.catch_warnings():
@@ -149,7 +153,7 @@ class _Env:
             for name, f in cands:
                 try:
                     v = getattr(f(), "_value", None)
-                    out.append(f"{name}={'no-value' if v is None else v.value.tolist()}")
+                    out.append(f"{name}={'no-value' if v is None else v.value.tolist()[:2]}")
                 except Exception as e:  # noqa: BLE001
                     out.append(f"{name}=!{type(e).__name__}")
         return "|".join(out)
@@ -285,6 +289,13 @@ def run_real(env: _Env, blocks, init, behave=False):
     log      : snapshots exactly where the model takes them (entering a body; after a block exit)
     records  : per block (which, arg, pre, inside, post, raised) for the model-free oracle
     """
+    def _has_backend_block(bs):
+        return any(b["which"] == 1 or _has_backend_block(b["inner"]) for b in bs)
+
+    # (the asymmetric-operator probes cost several evaluator start-ups: a budget of histories per run; replays have none)
+    use_asym = behave and _has_backend_block(blocks) and getattr(env, "asym_left", 1) > 0
+    if use_asym and hasattr(env, "asym_left"):
+        env.asym_left -= 1
     if behave:
         # every behavioural history starts from the same past: the main constant computation has been
         # evaluated under both evaluating backends, in this order (so that a verdict does not depend on
@@ -314,7 +325,8 @@ def run_real(env: _Env, blocks, init, behave=False):
                "raises": b["raises"]}
         if behave:
             rec["bpre"] = env.behave()
-            rec["apre"] = env.behave_asym()
+            if use_asym:
+                rec["apre"] = env.behave_asym()
             env.nonce = getattr(env, "nonce", 0) + 1  # a constant never evaluated before in this process
             rec["nonce"] = env.nonce
         records.append(rec)
@@ -324,7 +336,8 @@ def run_real(env: _Env, blocks, init, behave=False):
             log.append(env.read())
             if behave:
                 rec["binside"] = env.behave(nonce=rec["nonce"])
-                rec["ainside"] = env.behave_asym()
+                if use_asym:
+                    rec["ainside"] = env.behave_asym()
                 blog.append(rec["binside"][:3])
             for ib in b["inner"]:
                 run_block(ib)
@@ -366,7 +379,8 @@ def run_real(env: _Env, blocks, init, behave=False):
             if behave:
                 # the constant first evaluated inside the block is evaluated again, byte for byte, after it
                 rec["bpost"] = env.behave(nonce=rec.get("nonce"))
-                rec["apost"] = env.behave_asym()
+                if use_asym:
+                    rec["apost"] = env.behave_asym()
                 blog.append(rec["bpost"][:3])
 
     for b in blocks:
@@ -936,6 +950,7 @@ def run(ck: core.Check):
     bstats = {"histories": 0, "behaviour_snapshots": 0, "mismatches": 0}
     try:
         env.prepare_probes()
+        env.asym_left = ck.pick(30, 400)
         base = baselines(env, ck)
         ck.cov["behaviour_baselines"] = {MANAGERS[j]: base[j] for j in range(3)}
         ck.cov["behaviour_baselines"]["asymmetric_operators_per_backend"] = base[3] if len(base) > 3 else None
@@ -963,14 +978,15 @@ def run(ck: core.Check):
         except Exception as e:  # noqa: BLE001
             ck.broken("correspondence", "C16 driver", str(e))
             bmodel = [None] * len(bcases)
-        for (blocks, init), m in zip(bcases, bmodel):
+        for k_hist, ((blocks, init), m) in enumerate(zip(bcases, bmodel)):
+            env.asym_len = 2 + k_hist
             final, log, records, blog = run_real(env, blocks, init, behave=True)
             bstats["histories"] += 1
             bstats["behaviour_snapshots"] += len(blog)
             ck.count(("behaviour", repr(init), repr(strip(blocks))))
             for mgr, kind, rec, what in behaviour_oracle(records, base):
                 ck.failure(f"{mgr}:{kind}", f"{mgr}: {what} (block enters {rec['arg']}, globals before/after {rec['pre']}/{rec['post']})",
-                           {"init": init, "blocks": blocks, "behaviour": True})
+                           {"init": init, "blocks": blocks, "behaviour": True, "asym_len": env.asym_len})
             if m is not None and "error" not in m:
                 want = [init] + m["log"]
                 if len(want) != len(blog):
@@ -995,7 +1011,7 @@ def run(ck: core.Check):
     try:
         if not hasattr(env, "p_const"):
             env.prepare_probes()
-        n_car = ck.pick(63, 630)
+        n_car = ck.pick(42, 630)
         for k in range(n_car):
             sc = gen_carrier_scenario(rng, k)
             try:
@@ -1066,6 +1082,7 @@ def replay(ck: core.Check, doc) -> bool:
             return bool(bad3)
         if case.get("behaviour"):
             env.prepare_probes()
+            env.asym_len = case.get("asym_len", 2)
             base = baselines(env)
             _, _, records, _ = run_real(env, case["blocks"], case["init"], behave=True)
             bad = [(m, k, r) for m, k, r, w in behaviour_oracle(records, base)]
